@@ -47,13 +47,20 @@ class Check:
         self.assumptions.append(text)
 
     # -- results --
+    @staticmethod
+    def _norm(key):
+        # closure ordinals shift when an unrelated closure is added to the function: keep keys stable
+        return re.sub(r"\{closure#\d+\}", "{closure}", key)
+
     def ok(self, rule, key, detail=None):
+        key = self._norm(key)
         self.obl.append((rule, key, True))
         if detail is not None and len(self.samples) < 400:
             self.samples.append({"rule": rule, "instance": key, "verdict": "holds", "detail": detail})
 
     def bad(self, rule, key, what, where=None, **detail):
         """A violated obligation.  `key` must not contain line numbers."""
+        key = self._norm(key)
         full = "%s:%s" % (rule, key)
         self.obl.append((rule, key, False))
         if full not in self.viol:
